@@ -146,7 +146,7 @@ def rec_bytes(tag):
     return bytes(((tag * 37 + i * 11) % 254) + 1 for i in range(SLOT))   # never 0xFF so fill is distinguishable
 
 
-def ref_merge(base, placements):
+def ref_merge(base, placements, salt=0):
     """placements: list of offsets. returns expected bytes or None (reject)."""
     area = bytearray(b"\xff" * AREA)
     used = set()
@@ -157,22 +157,31 @@ def ref_merge(base, placements):
         if used & rng:
             return None
         used |= rng
-        area[off:off + SLOT] = rec_bytes(n)
+        area[off:off + SLOT] = rec_bytes(n + salt)
     return bytes(area) + hashlib.sha256(bytes(area)).digest()
 
 
-def do_merge(m, base, offs, agg, key, label, via_main=False, none_files=False, repeat=None):
+# input file names a project may well use: characters that mean something to a shell, to glob, to argparse or to a URL parser
+ODD_NAMES = ["mpi_app[local].hex", "rad*.hex", "what?.hex", " r 2 .hex", "#r3.hex", "-r4.hex", "ré€5.hex", "r6.HEX", "r7.hex.bak", "{r8}.hex"]
+
+
+def do_merge(m, base, offs, agg, key, label, via_main=False, none_files=False, repeat=None, workdir=None, salt=0):
+    """-> False if a violation was reported.  workdir: an already used directory (same input and output paths as the
+    previous merge of the history, other content)"""
+    import contextlib
     if any(base + off < 0 for off in offs):
         agg.rej(key, "placement-below-address-zero-not-representable", nontrivial=False)
-        return
-    with fresh_dir("c12m") as d:
+        return True
+    with (fresh_dir("c12m") if workdir is None else contextlib.nullcontext(workdir)) as d:
         files = []
         for n, off in enumerate(offs):
-            f = os.path.join(d, f"r{n}.hex")
-            refhex.write_hex([(base + off, rec_bytes(n))], f)
+            f = os.path.join(d, ODD_NAMES[(n + key) % len(ODD_NAMES)] if (key % 2 == 0 and workdir is None) else f"r{n}.hex")
+            refhex.write_hex([(base + off, rec_bytes(n + salt))], f)
             files.append(f)
         out = os.path.join(d, "merged.hex")
-        want = ref_merge(base, offs)
+        if workdir is not None and os.path.exists(out):
+            os.unlink(out)
+        want = ref_merge(base, offs, salt)
         if repeat is not None:
             # the SAME input file named twice: it overlaps itself completely and must be rejected
             files = files + [files[repeat]]
@@ -190,27 +199,52 @@ def do_merge(m, base, offs, agg, key, label, via_main=False, none_files=False, r
             if want is None:
                 if os.path.exists(out):
                     agg.viol("C12:merge/refusal-left-output", f"{label}: rejected ({type(e).__name__}) but output file exists")
-                else:
-                    agg.rej(key, f"refused:{type(e).__name__}", nontrivial=True)
-            else:
-                agg.viol(f"C12:merge/unexpected-refusal", f"{label}: valid placement set rejected: {type(e).__name__}: {e}")
-            return
+                    return False
+                agg.rej(key, f"refused:{type(e).__name__}", nontrivial=True)
+                return True
+            agg.viol(f"C12:merge/unexpected-refusal", f"{label}: valid placement set rejected: {type(e).__name__}: {e}")
+            return False
         if want is None:
             agg.viol("C12:merge/invalid-accepted", f"{label}: overlapping or out-of-area input was merged without error")
-            return
+            return False
         try:
             mem = refhex.read_hex_file(out)
         except refhex.HexError as e:
             agg.viol("C12:merge/malformed-hex", f"{label}: {e}")
-            return
+            return False
     exp = {base + i: b for i, b in enumerate(want)}
     if mem != exp:
         got = refhex.regions(mem)
         what = "digest" if (len(got) == 1 and got[0][0] == base and got[0][1][:AREA] == want[:AREA]) else "area"
         agg.viol(f"C12:merge/{what}", f"{label}: regions {[(hex(a), len(b)) for a, b in got][:3]}; expected {hex(base)}+{len(want)}; "
                  f"tail got {got[0][1][-32:].hex() if got else ''} want {want[-32:].hex()}")
-    else:
-        agg.ok(key, f"ok:n={len(offs)}", sample={"base": hex(base), "offsets": list(offs)})
+        return False
+    agg.ok(key, f"ok:n={len(offs)}", sample={"base": hex(base), "offsets": list(offs)})
+    return True
+
+
+# -- merges in one process and one directory ---------------------------------------------------------------
+D_SETS = [(0,), (SLOT,), (0, 2 * SLOT), (2 * SLOT, 0), (7 * SLOT,), (0, SLOT // 2), (AREA,), ()]
+
+
+def mdir_init():
+    return [((), ("start",))]
+
+
+def mdir_step(hist, agg, expand):
+    """a history of merges in one process and one directory: the input files keep their paths and are regenerated with
+    other records at other offsets between the merges (an incremental build); each merge is judged like a first one"""
+    m = _mpi()
+    hist = tuplify(hist)
+    if hist:
+        with fresh_dir("c12d") as d:
+            for n, i in enumerate(hist):
+                label = f"merge {n + 1} of the history {[D_SETS[j] for j in hist[:n + 1]]} in one process, same input and output paths"
+                if not do_merge(m, 0x1000, list(D_SETS[i]), agg, h8("c12d", hist[:n + 1]), label, via_main=bool(n % 2), workdir=d, salt=3 * n):
+                    return []
+    if not expand:
+        return []
+    return [(f"merge:{D_SETS[i]}", hist + (i,), h8("c12dh", hist + (i,))) for i in range(len(D_SETS))]
 
 
 def merge_init():
@@ -310,6 +344,8 @@ def plan(tier):
                  rule="placement histories over 23 placements x 3 area addresses"),
         BfsStage("generate-histories", genhist_init, genhist_step, max_depth=2 if tier == "quick" else 3,
                  rule="histories of generate calls (24 parameter tuples: 3 addresses x 2 sizes x 2 name pairs x 2 policies) on one output path"),
+        BfsStage("merge-histories-one-directory", mdir_init, mdir_step, max_depth=2 if tier == "quick" else 3,
+                 rule="histories of merges in one process and directory: 8 placement sets, input files regenerated under the same paths"),
         CaseStage("cli", lambda: cli_cases(tier), run_cli, rule="real CLI: 12 flag combinations x address/size syntax x names; merge with 0/1/3 --file"),
         CaseStage("merge-subsets", lambda: subset_cases(tier), run_subset, disjoint=True,
                   rule="all 2^8 subsets of aligned placements (+ each single faulty placement in thorough)"),
